@@ -1,17 +1,22 @@
-"""C29 Post-login redirects stay on Hail hosts.
+r"""C29 Post-login redirects stay on Hail hosts.
 
-Decides (from the syntax tree of auth/auth/auth.py and hailtop/config/deploy_config.py, nothing is run):
-  R1  taint + must-pass-through: every redirect response (web.HTTPFound & friends) whose location derives from the
-      request (query, match_info, headers, body) or from the cookie session is, on every CFG path from the tainted
-      definition of that value to the redirect, preceded by `validate_next_page_url(<that value>)` that returned normally
-      (leaving the validation through an exception edge into a handler that falls through does not count)
+Decides (from the syntax trees of auth/auth/*.py and hailtop/config/deploy_config.py, nothing of the repository is run):
+  R1  taint + must-pass-through: every redirect (web.HTTPFound & friends, a `Location` header handed to a response, a call of a helper that
+      passes its parameter on to a redirect) whose location derives from the request (query, match_info, headers, body) or from the cookie
+      session is, on every CFG path from the tainted definition of that value to the redirect, preceded by `validate_next_page_url(<that value>)`
+      that returned normally (leaving the validation through an exception edge into a handler that falls through does not count)
   R2  the same for what the service accepts into the session: `session['next'] = x`
-  R3  validator decision table: over every valuation of the tests in validate_next_page_url, the function raises whenever
-      `urlparse(next_page).netloc` is NOT an exact member of the list of netlocs of the statement's services
-      (batch, auth, ci, monitoring); prefix / suffix / substring tests and a widened service list are violations
-  R4  DeployConfig.external_url returns `<scheme>s://<non-empty authority>...` on every return, so the list of valid
-      netlocs never contains the empty string (otherwise `/\\evil.com`, netloc '', would be accepted)
-Does not decide: browser-vs-urlparse differentials in how a string is split into scheme/authority.
+  R3  validator decision list (locals expanded, options bound to the values the call sites pass):
+      (i)  no hostile value of a fixed corpus (backslash / TAB / userinfo / suffix / prefix / empty-netloc forms, read the way a browser reads a
+           Location header) is accepted - evaluated on the extracted tests by our own evaluator of the string operations they use; a hit is
+           reported with the concrete value and the host the browser lands on;
+      (ii) proof side: on every accepting path of the truth table `urlparse(next).netloc` was found to be an exact member of the netlocs of the
+           statement's services (batch, auth, ci, monitoring), or the path condition confines the value to prefix classes that cannot name a
+           host (first character `/`, second character none of `/ \ TAB LF CR`); an accepting path that is neither is an analysis error;
+      prefix / suffix / substring tests against the service list and a widened service list are violations
+  R4  DeployConfig.external_url returns `<scheme>s://<non-empty authority>...` on every return, so the list of valid netlocs never contains the
+      empty string (otherwise `/\\evil.com`, netloc '', would be accepted)
+Does not decide: browser behaviour beyond the small WHATWG model in browser_host(); values outside the corpus on paths that test the netloc exactly.
 """
 from __future__ import annotations
 
@@ -23,13 +28,15 @@ from engines.common import AnalysisError, Ctx, short
 
 META = dict(
     category='other',
-    text='Intra-procedural taint analysis with def-use and CFG must-pass-through over every function of auth.py: every redirect location and '
-         'every stored session[\'next\'] that derives from client-controlled data is validated on all paths; plus an exhaustive truth table of '
-         'the validator body showing it raises unless the parsed netloc is an exact member of the four services\' netlocs. Level is `other` '
-         'because how a browser splits a URL (vs urllib.parse.urlparse) is outside the syntax tree.',
-    note='Trusted: CPython ast; engines/pyfacts CFG; urllib.parse.urlparse semantics; aiohttp redirect classes. '
-         'Not decided: browser-vs-urlparse differentials; helper functions that receive the URL as a parameter decline (exit 2) unless validated locally.',
-    technique='static analysis: taint / def-use + CFG dominance (must-pass-through with exception edges) + predicate-abstraction truth table',
+    text='Intra-procedural taint analysis with def-use and CFG must-pass-through over every function of auth/auth/*.py (redirect helpers followed to their '
+         'call sites): every redirect location and every stored session[\'next\'] that derives from client-controlled data is validated on all paths; plus a '
+         'decision-list analysis of the validator: exhaustive truth table showing that every accepting path found the parsed netloc to be an exact member of '
+         'the four services\' netlocs (or confines the value to site-relative prefixes), and a corpus of hostile values, read as a browser reads them, none of '
+         'which is accepted. Level is `other`: the browser is a small model, the corpus is finite.',
+    note='Trusted: CPython ast; engines/pyfacts CFG; urllib.parse.urlparse of the checking interpreter as the semantics of urlparse; aiohttp redirect classes; '
+         'browser_host() as the WHATWG reading of a Location header. Not decided: parser differentials outside the model.',
+    technique='static analysis: taint / def-use + CFG dominance (must-pass-through with exception edges) + predicate-abstraction truth table + '
+              'abstract (prefix-class) and concrete evaluation of the extracted string tests',
     design_ref='DESIGN.md §3 C29',
 )
 
@@ -152,12 +159,13 @@ def _redirect_location(call: ast.Call, imports: Dict[str, str]) -> Optional[ast.
     for k in call.keywords:
         if k.arg == 'location':
             return k.value
-    raise AnalysisError(f'{F}: redirect `{pf.nsrc(call)}` without a recognisable location argument')
+    raise AnalysisError(f'redirect `{pf.nsrc(call)}` without a recognisable location argument')
 
 
 def _is_validate(n: pf.Node, key: str) -> bool:
     for c in pf.node_calls(n):
-        if pf.dotted(c.func) == VALIDATOR and len(c.args) == 1 and not c.keywords and pf.nsrc(c.args[0]) == key:
+        if pf.dotted(c.func) == VALIDATOR and len(c.args) >= 1 and not any(isinstance(a, ast.Starred) for a in c.args) and pf.nsrc(c.args[0]) == key \
+                and all(k.arg is not None for k in c.keywords):
             return True
     return False
 
@@ -206,17 +214,18 @@ def _escape_path(cfg: pf.CFG, starts: List[pf.Node], sinks: List[pf.Node], key: 
     return None
 
 
-def _check_sink(ctx: Ctx, m: pf.Module, qual: str, fn: pf.FuncDef, taint: Taint, rule: str, role: str, value: ast.expr, at: ast.AST) -> str:
+def _check_sink(ctx: Ctx, m: pf.Module, qual: str, fn: pf.FuncDef, taint: Taint, rule: str, role: str, value: ast.expr, at: ast.AST,
+                propagate: Optional[List[str]] = None) -> str:
     """Returns 'tainted' | 'clean' after recording the instance (clean sinks are not instances)."""
     cfg = pf.cfg(fn)
     sink_nodes = cfg.node_of(at)
-    ctx.need(sink_nodes, f'{F}::{qual}: cannot locate `{short(pf.nsrc(at), 60)}` in the CFG')
-    cons = f'{F}::{qual}::{role} {short(pf.nsrc(value), 80)}'
+    ctx.need(sink_nodes, f'{m.rel}::{qual}: cannot locate `{short(pf.nsrc(at), 60)}` in the CFG')
+    cons = f'{m.rel}::{qual}::{role} {short(pf.nsrc(value), 80)}'
     key = pf.nsrc(value)
 
     if isinstance(value, ast.Name):
         name = value.id
-        ctx.need(name in taint.defs or name in taint.session_names, f'{F}::{qual}: `{name}` used as a redirect target has no local definition')
+        ctx.need(name in taint.defs or name in taint.session_names, f'{m.rel}::{qual}: `{name}` used as a redirect target has no local definition')
         kinds = [(d, taint.of_def(d, (name,))) for d in taint.defs.get(name, [])]
         if name in taint.session_names:
             ctx.bad(rule, cons, 'the session object itself is used as a URL', m.path, at.lineno)
@@ -225,11 +234,12 @@ def _check_sink(ctx: Ctx, m: pf.Module, qual: str, fn: pf.FuncDef, taint: Taint,
             return 'clean'
         problems = []
         undecided = []
+        via_params: List[str] = []
         def_nodes: Dict[int, Set[int]] = {}
         for d, _k in kinds:
             if not isinstance(d, ast.arg):
                 ns = cfg.node_of(d)
-                ctx.need(ns, f'{F}::{qual}: definition of `{name}` not found in the CFG')
+                ctx.need(ns, f'{m.rel}::{qual}: definition of `{name}` not found in the CFG')
                 def_nodes[id(d)] = {n.id for n in ns}
         for d, k in kinds:
             if k == 'clean':
@@ -246,6 +256,8 @@ def _check_sink(ctx: Ctx, m: pf.Module, qual: str, fn: pf.FuncDef, taint: Taint,
             path2 = _escape_path(cfg, starts, sink_nodes, key, extra_block=lambda n: _unknown_guard(n, key), kills=kills)
             if path2 is None:
                 undecided.append((d, path))
+            elif k == 'unknown' and isinstance(d, ast.arg) and propagate is not None:
+                via_params.append(d.arg)  # an unvalidated parameter of a helper: the obligation moves to the callers
             elif k == 'unknown':
                 undecided.append((d, path2))
             else:
@@ -259,9 +271,12 @@ def _check_sink(ctx: Ctx, m: pf.Module, qual: str, fn: pf.FuncDef, taint: Taint,
                     f'{VALIDATOR}({name}) [{via}]: e.g. next=https://evil.example/ is followed', m.path, at.lineno,
                     extra=[f'{n.kind}:{n.text()}@{n.lineno}' for n in path])
             return 'tainted'
+        if via_params and not undecided:
+            propagate.extend(via_params)  # type: ignore[union-attr]
+            return 'param'
         if undecided:
             d, path = undecided[0]
-            raise AnalysisError(f'{F}::{qual}: `{name}` reaches `{short(pf.nsrc(at), 60)}` without {VALIDATOR}; its origin/guard '
+            raise AnalysisError(f'{m.rel}::{qual}: `{name}` reaches `{short(pf.nsrc(at), 60)}` without {VALIDATOR}; its origin/guard '
                                 f'(`{short(pf.nsrc(d), 60)}`) is not a recognised idiom - cannot decide')
         ctx.ok(rule, cons, {'validated_value': name, 'tainted_definitions': [short(pf.nsrc(d), 80) for d, k in kinds if k != 'clean']})
         return 'tainted'
@@ -282,32 +297,86 @@ def _check_sink(ctx: Ctx, m: pf.Module, qual: str, fn: pf.FuncDef, taint: Taint,
         ctx.bad(rule, cons, f'the {role} is computed from client-controlled `{direct[0]}` in place; the value that is followed was never passed to '
                 f'{VALIDATOR}: e.g. next=https://evil.example/ is followed', m.path, at.lineno)
         return 'tainted'
-    raise AnalysisError(f'{F}::{qual}: {role} `{short(key, 60)}` is derived from client-controlled or unknown values by an expression - cannot decide')
+    raise AnalysisError(f'{m.rel}::{qual}: {role} `{short(key, 60)}` is derived from client-controlled or unknown values by an expression - cannot decide')
 
 
-def _scan_function(ctx: Ctx, m: pf.Module, qual: str, fn: pf.FuncDef, imports: Dict[str, str]) -> Tuple[int, int]:
+def _location_values(node: ast.AST) -> List[ast.expr]:
+    """Other ways of sending a redirect: a `Location` header given to a response / assigned into a headers mapping."""
+    out: List[ast.expr] = []
+    if isinstance(node, ast.Dict):
+        for k, v in zip(node.keys, node.values):
+            if k is not None and (pf.const_str(k) or '').lower() == 'location':
+                out.append(v)
+    elif isinstance(node, (ast.Assign, ast.AnnAssign)):
+        targets = node.targets if isinstance(node, ast.Assign) else [node.target]
+        for t in targets:
+            if isinstance(t, ast.Subscript) and (pf.const_str(t.slice) or '').lower() == 'location' and node.value is not None:
+                out.append(node.value)
+    elif isinstance(node, ast.Call) and isinstance(node.func, ast.Attribute) and node.func.attr in ('add', 'setdefault', '__setitem__') and len(node.args) == 2 \
+            and (pf.const_str(node.args[0]) or '').lower() == 'location':
+        out.append(node.args[1])
+    return out
+
+
+def _stmt_of(m: pf.Module, fn: pf.FuncDef, node: ast.AST) -> ast.AST:
+    par = m.parents()
+    cur = node
+    while cur is not fn and not isinstance(cur, ast.stmt):
+        cur = par[cur]
+    return cur
+
+
+def _scan_function(ctx: Ctx, m: pf.Module, qual: str, fn: pf.FuncDef, imports: Dict[str, str],
+                   derived: Optional[Dict[str, List[Tuple[int, str]]]] = None, found: Optional[Dict[str, List[Tuple[int, str]]]] = None) -> Tuple[int, int]:
+    """derived: helper name -> [(parameter position, parameter name)] whose value reaches a redirect unvalidated inside the helper (calls of those
+    helpers are sinks here); found: filled with the helpers of that kind discovered in this function."""
     taint = Taint(fn)
     n_red = n_clean = 0
+    pnames = [a.arg for a in fn.args.posonlyargs + fn.args.args]
+
+    def sink(rule: str, role: str, value: ast.expr, at: ast.AST) -> str:
+        prop: List[str] = []
+        r = _check_sink(ctx, m, qual, fn, taint, rule, role, value, at, prop if '.' not in qual else None)
+        if r == 'param' and found is not None:
+            for name in prop:
+                if name in pnames:
+                    found.setdefault(qual, []).append((pnames.index(name), name))
+        return r
     for node in pf.walk_shallow(fn):
         if isinstance(node, ast.Call):
             loc = _redirect_location(node, imports)
-            if loc is None:
-                continue
+            if loc is not None:
+                n_red += 1
+                if sink('R1', 'redirect', loc, node) == 'clean':
+                    n_clean += 1
+            callee = pf.dotted(node.func)
+            if derived and callee in derived:
+                for pos, pname in derived[callee]:
+                    arg = node.args[pos] if pos < len(node.args) and not any(isinstance(a, ast.Starred) for a in node.args) else None
+                    for k in node.keywords:
+                        if k.arg == pname:
+                            arg = k.value
+                    ctx.need(arg is not None, f'{m.rel}::{qual}: cannot bind parameter `{pname}` in `{short(pf.nsrc(node), 60)}`')
+                    n_red += 1
+                    if sink('R1', f'redirect via {callee}({pname})', arg, node) == 'clean':  # type: ignore[arg-type]
+                        n_clean += 1
+        for loc in _location_values(node):
             n_red += 1
-            if _check_sink(ctx, m, qual, fn, taint, 'R1', 'redirect', loc, node) == 'clean':
+            at = node if isinstance(node, (ast.Assign, ast.AnnAssign, ast.Call)) else _stmt_of(m, fn, node)
+            if sink('R1', 'Location header', loc, at) == 'clean':
                 n_clean += 1
-        elif isinstance(node, (ast.Assign, ast.AnnAssign)):
+        if isinstance(node, (ast.Assign, ast.AnnAssign)):
             targets = node.targets if isinstance(node, ast.Assign) else [node.target]
             for t in targets:
                 if isinstance(t, ast.Subscript) and isinstance(t.value, ast.Name) and t.value.id in taint.session_names \
                         and pf.const_str(t.slice) == 'next' and node.value is not None:
-                    _check_sink(ctx, m, qual, fn, taint, 'R2', "session['next'] store", node.value, node)
+                    sink('R2', "session['next'] store", node.value, node)
     # other ways of storing `next` in the session that we do not model
     for node in pf.walk_shallow(fn):
         if isinstance(node, ast.Call) and isinstance(node.func, ast.Attribute) and isinstance(node.func.value, ast.Name) \
                 and node.func.value.id in taint.session_names and node.func.attr in ('update', 'setdefault', '__setitem__'):
             txt = pf.nsrc(node)
-            ctx.need("'next'" not in txt and '"next"' not in txt, f'{F}::{qual}: `{short(txt, 60)}` stores next in the session by an unrecognised idiom')
+            ctx.need("'next'" not in txt and '"next"' not in txt, f'{m.rel}::{qual}: `{short(txt, 60)}` stores next in the session by an unrecognised idiom')
     return n_red, n_clean
 
 
@@ -355,91 +424,598 @@ def _domains_list(ctx: Ctx, fn: pf.FuncDef, e: ast.AST, imports: Dict[str, str])
     return None
 
 
+# --------------------------------------------------------------------------------------
+# the browser's reading of a Location value (WHATWG URL parsing against an https base), and a witness corpus
+# --------------------------------------------------------------------------------------
+
+SAME_SITE = '<same site>'
+NOT_NAVIGABLE = '<not followed>'
+_C0_SPACE = ''.join(chr(i) for i in range(0x21))
+
+
+def browser_host(location: str) -> str:
+    r"""Host a browser ends up on when it follows `Location: <location>` sent by an https page (SAME_SITE for a relative reference,
+    NOT_NAVIGABLE for schemes a redirect is not followed to).  Small model of the WHATWG URL parser: leading/trailing C0 and space are
+    stripped, TAB/LF/CR are removed everywhere, `\` is `/` for special schemes, any run of slashes after a special scheme is skipped."""
+    s = location.strip(_C0_SPACE).replace('\t', '').replace('\n', '').replace('\r', '')
+    i = 0
+    while i < len(s) and (s[i].isascii() and (s[i].isalnum() or s[i] in '+-.')):
+        i += 1
+    scheme = None
+    if 0 < i < len(s) and s[i] == ':' and s[0].isalpha():
+        scheme = s[:i].lower()
+        rest = s[i + 1:]
+    else:
+        rest = s
+    if scheme is not None:
+        if scheme not in ('http', 'https', 'ftp', 'ws', 'wss'):
+            return NOT_NAVIGABLE
+        if scheme == 'https' and rest[:1] not in ('/', '\\'):
+            return SAME_SITE  # same scheme as the base, no slash: relative path
+        rest = rest.lstrip('/\\')
+    else:
+        if not (len(rest) >= 2 and rest[0] in '/\\' and rest[1] in '/\\'):
+            return SAME_SITE
+        rest = rest.lstrip('/\\')
+    end = len(rest)
+    for k, ch in enumerate(rest):
+        if ch in '/\\?#':
+            end = k
+            break
+    authority = rest[:end]
+    hostport = authority.rsplit('@', 1)[-1]
+    if hostport.startswith('['):
+        host = hostport[:hostport.find(']') + 1]
+    else:
+        host = hostport.split(':', 1)[0]
+    return host.lower().rstrip('.') or SAME_SITE
+
+
+def _corpus(domains: List[str]) -> List[str]:
+    e = 'evil.example'
+    g = domains[1] if len(domains) > 1 else domains[0]
+    parent = g.split('.', 1)[1] if '.' in g else g
+    out = [
+        f'https://{e}/', f'http://{e}/', f'//{e}/', f'/\\{e}/', f'\\\\{e}/', f'\\/{e}/', f'/\t/{e}/', f'/\n/{e}/', f'/\r/{e}/', f'/\t\\{e}/', f'/\\\t/{e}/',
+        f'\t//{e}/', f' //{e}/', f'///{e}/', f'////{e}/', f'/\\/{e}/', f'/\\\\{e}/', f' /\\{e}/', f'\t/\\{e}/',
+        f' https://{e}/', f'\thttps://{e}/', f'\nhttps://{e}/', f'https:/\\{e}/', f'https:\\\\{e}/', f'https:/{e}/', f'https:///{e}/', f'ht\ttps://{e}/',
+        f'HTTPS://{e}/', f'hTtPs://{e.upper()}/', f'https://{e}', f'https://{e}:443/', f'https://{e}./',
+        f'https://{g}.{e}/', f'https://{g}@{e}/', f'https://{g}:443@{e}/', f'https://{g}%2f@{e}/', f'https://{g}%40{e}/',
+        f'https://{e}\\@{g}/', f'https://{e}\\@{g}', f'https://{e}/\\@{g}/', f'//{e}\\@{g}/', f'https://{e}#@{g}/', f'https://{e}?@{g}/', f'https://{e}#@{g}', f'https://{e}?@{g}',
+        f'https://{e}/{g}', f'https://{e}/{g}/', f'https://{e}/?next=https://{g}/', f'https://{e}/#https://{g}/', f'https://{e}/https://{g}/', f'https://{e}/.{g}',
+        f'https://{e}?{g}', f'https://{e}#{g}', f'https://{e}/?{g}', f'https://{e}/#.{g}', f'https://{e}/x?.{g}',
+        f'https://evil{g}/', f'https://evil-{g}/', f'https://{g}evil.example/', f'https://{g}.{e}:443/', f'https://{g}-{e}/',
+        f'https://evil.{parent}/', f'https://www.{parent}/', f'https://{parent}/', f'https://evil.{g}/',
+        f'//{g}@{e}/', f'//{g}.{e}/', f'/\\{g}@{e}/', f'/\\{e}/{g}', f'/\\{e}/?{g}', f'/\\{e}#{g}',
+        f'https://{g}:pw@{e}/', f'https://{e}:{g}@{e}/', f'http://{g}@{e}/', f'https://{g}\\.{e}/',
+        f'https://{g.upper()}.{e}/', f'{e}//{g}', f'https://{e}//{g}/',
+    ]
+    seen = set()
+    uniq = []
+    for w in out:
+        if w not in seen:
+            seen.add(w)
+            uniq.append(w)
+    return uniq
+
+
+# --------------------------------------------------------------------------------------
+# our own evaluator for the string tests of the validator (extracted syntax tree; nothing of the repository is run)
+# --------------------------------------------------------------------------------------
+
+
+class _Unknown(Exception):
+    pass
+
+
+class _Raises(Exception):
+    """The evaluated expression raises in Python (IndexError, ValueError...): the validator does not accept."""
+
+
+_STR_METHODS = {'startswith', 'endswith', 'lower', 'upper', 'casefold', 'strip', 'lstrip', 'rstrip', 'find', 'rfind', 'index', 'count', 'split', 'rsplit', 'partition',
+                'rpartition', 'replace', 'removeprefix', 'removesuffix', 'isalnum', 'isalpha', 'isdigit', 'isascii', 'isspace', 'isprintable', 'splitlines', 'join'}
+_URL_ATTRS = {'scheme', 'netloc', 'path', 'params', 'query', 'fragment', 'hostname', 'port', 'username', 'password'}
+
+
+class StrEval:
+    def __init__(self, imports: Dict[str, str], env: Dict[str, object]):
+        self.imports = imports
+        self.env = dict(env)
+
+    def _origin(self, dotted_name: str) -> str:
+        head = dotted_name.split('.')[0]
+        o = self.imports.get(head, '')
+        rest = dotted_name.split('.')[1:]
+        return '.'.join([o] + rest) if o else dotted_name
+
+    def ev(self, e: ast.AST):  # noqa: C901
+        import urllib.parse as up
+        import re as _re
+        if isinstance(e, ast.Constant):
+            return e.value
+        if isinstance(e, ast.Name):
+            if e.id in self.env:
+                return self.env[e.id]
+            raise _Unknown(e.id)
+        if isinstance(e, (ast.Tuple, ast.List, ast.Set)):
+            vals = [self.ev(x) for x in e.elts]
+            return tuple(vals) if isinstance(e, ast.Tuple) else (vals if isinstance(e, ast.List) else set(vals))
+        if isinstance(e, ast.JoinedStr):
+            parts = []
+            for v in e.values:
+                if isinstance(v, ast.Constant):
+                    parts.append(str(v.value))
+                elif isinstance(v, ast.FormattedValue) and v.format_spec is None and v.conversion == -1:
+                    parts.append(str(self.ev(v.value)))
+                else:
+                    raise _Unknown('f-string')
+            return ''.join(parts)
+        if isinstance(e, ast.BoolOp):
+            val = None
+            for v in e.values:
+                val = self.ev(v)
+                if isinstance(e.op, ast.And) and not val:
+                    return val
+                if isinstance(e.op, ast.Or) and val:
+                    return val
+            return val
+        if isinstance(e, ast.UnaryOp) and isinstance(e.op, ast.Not):
+            return not self.ev(e.operand)
+        if isinstance(e, ast.IfExp):
+            return self.ev(e.body) if self.ev(e.test) else self.ev(e.orelse)
+        if isinstance(e, ast.BinOp) and isinstance(e.op, ast.Add):
+            a, b = self.ev(e.left), self.ev(e.right)
+            if type(a) is type(b) and isinstance(a, (str, list, tuple)):
+                return a + b
+            raise _Unknown('+')
+        if isinstance(e, ast.Compare):
+            left = self.ev(e.left)
+            for op, c in zip(e.ops, e.comparators):
+                right = self.ev(c)
+                try:
+                    if isinstance(op, ast.Eq):
+                        r = left == right
+                    elif isinstance(op, ast.NotEq):
+                        r = left != right
+                    elif isinstance(op, ast.In):
+                        r = left in right
+                    elif isinstance(op, ast.NotIn):
+                        r = left not in right
+                    elif isinstance(op, ast.Is):
+                        r = left is right if (left is None or right is None or isinstance(left, bool)) else left == right
+                    elif isinstance(op, ast.IsNot):
+                        r = left is not right if (left is None or right is None or isinstance(left, bool)) else left != right
+                    elif isinstance(op, ast.Lt):
+                        r = left < right
+                    elif isinstance(op, ast.LtE):
+                        r = left <= right
+                    elif isinstance(op, ast.Gt):
+                        r = left > right
+                    elif isinstance(op, ast.GtE):
+                        r = left >= right
+                    else:
+                        raise _Unknown('cmp')
+                except TypeError as ex:
+                    raise _Raises(str(ex)) from ex
+                if not r:
+                    return False
+                left = right
+            return True
+        if isinstance(e, ast.Subscript):
+            base = self.ev(e.value)
+            if not isinstance(base, (str, list, tuple)):
+                raise _Unknown('subscript')
+            try:
+                if isinstance(e.slice, ast.Slice):
+                    lo = self.ev(e.slice.lower) if e.slice.lower is not None else None
+                    hi = self.ev(e.slice.upper) if e.slice.upper is not None else None
+                    st = self.ev(e.slice.step) if e.slice.step is not None else None
+                    return base[lo:hi:st]
+                return base[self.ev(e.slice)]
+            except (IndexError, TypeError) as ex:
+                raise _Raises(str(ex)) from ex
+        if isinstance(e, ast.Attribute):
+            base = self.ev(e.value)
+            if isinstance(base, (up.ParseResult, up.SplitResult)) and e.attr in _URL_ATTRS:
+                try:
+                    return getattr(base, e.attr)
+                except ValueError as ex:
+                    raise _Raises(str(ex)) from ex
+            raise _Unknown(f'.{e.attr}')
+        if isinstance(e, (ast.GeneratorExp, ast.ListComp, ast.SetComp)):
+            return self._comp(e)
+        if isinstance(e, ast.Call):
+            name = pf.dotted(e.func)
+            if name is not None:
+                origin = self._origin(name)
+                if origin in ('urllib.parse.urlparse', 'urllib.parse.urlsplit') and len(e.args) == 1 and not e.keywords:
+                    arg = self.ev(e.args[0])
+                    if not isinstance(arg, str):
+                        raise _Unknown('urlparse of non-string')
+                    try:
+                        return up.urlparse(arg) if origin.endswith('urlparse') else up.urlsplit(arg)
+                    except ValueError as ex:
+                        raise _Raises(str(ex)) from ex
+                if name.split('.')[-1] == 'external_url' and len(e.args) >= 2 and not e.keywords:
+                    svc, path = self.ev(e.args[0]), self.ev(e.args[1])
+                    if isinstance(svc, str) and isinstance(path, str):
+                        return f'https://{svc}.hail.is{path}'  # the shape R4 establishes: scheme://<non-empty authority><path>
+                    raise _Unknown('external_url')
+                if name in ('len', 'bool', 'str', 'any', 'all', 'list', 'tuple', 'set', 'sorted') and len(e.args) == 1 and not e.keywords:
+                    arg = self.ev(e.args[0])
+                    try:
+                        return {'len': len, 'bool': bool, 'str': str, 'any': any, 'all': all, 'list': list, 'tuple': tuple, 'set': set, 'sorted': sorted}[name](arg)
+                    except TypeError as ex:
+                        raise _Raises(str(ex)) from ex
+                if origin in ('re.match', 're.fullmatch', 're.search') and len(e.args) == 2 and not e.keywords:
+                    pat, subj = self.ev(e.args[0]), self.ev(e.args[1])
+                    if isinstance(pat, str) and isinstance(subj, str):
+                        return getattr(_re, origin.split('.')[1])(pat, subj) is not None or None
+                    raise _Unknown('re')
+            if isinstance(e.func, ast.Attribute) and e.func.attr in _STR_METHODS and not e.keywords:
+                base = self.ev(e.func.value)
+                if isinstance(base, str):
+                    args = [self.ev(a) for a in e.args]
+                    if e.func.attr == 'join':
+                        args = [list(args[0])] if args else args
+                    try:
+                        return getattr(base, e.func.attr)(*args)
+                    except (TypeError, ValueError) as ex:
+                        raise _Raises(str(ex)) from ex
+                raise _Unknown('method on non-string')
+        raise _Unknown(pf.nsrc(e)[:40])
+
+    def _comp(self, e):
+        if len(e.generators) != 1 or e.generators[0].is_async or not isinstance(e.generators[0].target, ast.Name):
+            raise _Unknown('comprehension')
+        g = e.generators[0]
+        it = self.ev(g.iter)
+        if not isinstance(it, (list, tuple, set, str)):
+            raise _Unknown('comprehension source')
+        out = []
+        saved = self.env.get(g.target.id, _Unknown)
+        try:
+            for x in (sorted(it) if isinstance(it, set) else it):
+                self.env[g.target.id] = x
+                if all(self.ev(c) for c in g.ifs):
+                    out.append(self.ev(e.elt))
+        finally:
+            if saved is _Unknown:
+                self.env.pop(g.target.id, None)
+            else:
+                self.env[g.target.id] = saved
+        return set(out) if isinstance(e, ast.SetComp) else out
+
+
+def _run_validator(fn: pf.FuncDef, tests: Dict[int, ast.AST], imports: Dict[str, str], param: str, value: str, indep: Dict[str, bool],
+                   options: Optional[Dict[str, object]] = None) -> Tuple[str, List[str]]:
+    """Outcome of the validator's decision list on one concrete string: 'accept' | 'raise' | 'unknown' (+ the tests taken)."""
+    sev = StrEval(imports, dict(options or {}, **{param: value}))
+    taken: List[str] = []
+
+    def val(atom: ast.AST) -> bool:
+        k = absdom.atom_key(atom)
+        if k in indep:
+            return indep[k]
+        try:
+            r = bool(sev.ev(tests.get(id(atom), atom)))
+        except _Raises:
+            raise
+        taken.append(short(k, 60) if r else f'not ({short(k, 60)})')
+        return r
+    try:
+        o = absdom.walk_block(fn.body, val)
+    except _Unknown:
+        return 'unknown', taken
+    except _Raises:
+        return 'raise', taken
+    return ('raise' if o.kind == 'raise' else 'accept'), taken
+
+
+# --------------------------------------------------------------------------------------
+# prefix classes: which strings that no allow-list test has seen can make a browser leave the site?
+# --------------------------------------------------------------------------------------
+
+_SPECIAL = ['/', '\\', '\t', '\n', '\r', ' ']
+_OTHER, _END = 'other', 'end'
+_CLASSES = _SPECIAL + [_OTHER, _END]
+_DANGEROUS_SECOND = {'/', '\\', '\t', '\n', '\r'}
+
+
+def _cls_of(ch: str) -> str:
+    return ch if ch in _SPECIAL else _OTHER
+
+
+def _prefix_matches(k: str, c0: str, c1: str) -> Optional[bool]:
+    """Does a string of prefix class (c0, c1) start with the constant k?  None = depends on the string."""
+    if k == '':
+        return True
+    unknown = False
+    for ch, c in zip(k[:2], (c0, c1)):
+        if c == _END:
+            return False
+        if _cls_of(ch) == _OTHER:
+            if c != _OTHER:
+                return False
+            unknown = True
+        elif c != ch:
+            return False
+    if len(k) > 2:
+        unknown = True
+    return None if unknown else True
+
+
+def _class_eval(e: ast.AST, p: str, c0: str, c1: str) -> Optional[bool]:
+    """Three-valued value of a test on the strings of one prefix class (None: not determined by the first two characters / not interpreted)."""
+    if isinstance(e, ast.UnaryOp) and isinstance(e.op, ast.Not):
+        v = _class_eval(e.operand, p, c0, c1)
+        return None if v is None else not v
+    if isinstance(e, ast.BoolOp):
+        vals = [_class_eval(v, p, c0, c1) for v in e.values]
+        if isinstance(e.op, ast.And):
+            return False if any(v is False for v in vals) else (True if all(v is True for v in vals) else None)
+        return True if any(v is True for v in vals) else (False if all(v is False for v in vals) else None)
+    if isinstance(e, ast.Name) and e.id == p:
+        return c0 != _END
+    if isinstance(e, ast.Call) and isinstance(e.func, ast.Attribute) and e.func.attr == 'startswith' and isinstance(e.func.value, ast.Name) and e.func.value.id == p \
+            and len(e.args) == 1 and not e.keywords:
+        a = e.args[0]
+        ks = [pf.const_str(a)] if pf.const_str(a) is not None else ([pf.const_str(x) for x in a.elts] if isinstance(a, ast.Tuple) else [None])
+        if any(k is None for k in ks):
+            return None
+        rs = [_prefix_matches(k, c0, c1) for k in ks]  # type: ignore[arg-type]
+        return True if any(r is True for r in rs) else (False if all(r is False for r in rs) else None)
+    if isinstance(e, ast.Compare) and len(e.ops) == 1:
+        l, r, op = e.left, e.comparators[0], e.ops[0]
+        # p[i] / p[:n] against constants
+        for x, y, flipped in ((l, r, False), (r, l, True)):
+            if isinstance(x, ast.Subscript) and isinstance(x.value, ast.Name) and x.value.id == p:
+                if isinstance(x.slice, ast.Constant) and x.slice.value in (0, 1) and not flipped:
+                    c = (c0, c1)[x.slice.value]
+                    if c == _END:
+                        return None  # IndexError: the validator raises; not an accepting path - leave undetermined
+                    consts = None
+                    if isinstance(op, (ast.Eq, ast.NotEq)) and pf.const_str(y) is not None:
+                        consts = [pf.const_str(y)]
+                    elif isinstance(op, (ast.In, ast.NotIn)):
+                        if pf.const_str(y) is not None:
+                            consts = list(pf.const_str(y))  # type: ignore[arg-type]
+                        elif isinstance(y, (ast.Tuple, ast.List, ast.Set)) and all(pf.const_str(z) is not None for z in y.elts):
+                            consts = [pf.const_str(z) for z in y.elts]
+                    if consts is None:
+                        return None
+                    hit: Optional[bool]
+                    if c == _OTHER:
+                        hit = None if any(len(k) == 1 and _cls_of(k) == _OTHER for k in consts) else False  # type: ignore[arg-type]
+                    else:
+                        hit = c in consts
+                    if hit is None:
+                        return None
+                    return hit if isinstance(op, (ast.Eq, ast.In)) else not hit
+                if isinstance(x.slice, ast.Slice) and x.slice.lower is None and x.slice.step is None and isinstance(x.slice.upper, ast.Constant) \
+                        and x.slice.upper.value in (1, 2) and isinstance(op, (ast.Eq, ast.NotEq)) and pf.const_str(y) is not None:
+                    n = x.slice.upper.value
+                    k = pf.const_str(y)
+                    have = [c for c in (c0, c1)[:n] if c != _END]
+                    if len(k) != len(have):  # type: ignore[arg-type]
+                        m: Optional[bool] = False
+                    else:
+                        m = _prefix_matches(k, c0, c1) if k else (c0 == _END)  # type: ignore[arg-type]
+                    if m is None:
+                        return None
+                    return m if isinstance(op, ast.Eq) else not m
+        # 'c' in p
+        if isinstance(op, (ast.In, ast.NotIn)) and isinstance(r, ast.Name) and r.id == p and pf.const_str(l) is not None and len(pf.const_str(l)) == 1:  # type: ignore[arg-type]
+            ch = pf.const_str(l)
+            if _cls_of(ch) != _OTHER and ch in (c0, c1):  # type: ignore[arg-type]
+                return isinstance(op, ast.In)
+            return None
+    return None
+
+
+def _leaving_classes(conds: List[Tuple[ast.AST, bool]], p: str) -> List[Tuple[str, str]]:
+    """Prefix classes compatible with the path condition whose strings a browser may resolve to another host.  Tests that are not
+    interpreted only restrict further, so ignoring them keeps the answer an over-approximation of the accepted strings."""
+    out = []
+    for c0 in _CLASSES:
+        for c1 in _CLASSES:
+            if c0 == _END and c1 != _END:
+                continue
+            if any(_class_eval(e, p, c0, c1) is (not want) for e, want in conds):
+                continue
+            safe = c0 == '/' and c1 not in _DANGEROUS_SECOND
+            if not safe:
+                out.append((c0, c1))
+    return out
+
+
+def _mentions_param(e: ast.AST, p: str) -> bool:
+    return any(isinstance(n, ast.Name) and n.id == p for n in ast.walk(e))
+
+
 def _check_validator(ctx: Ctx, m: pf.Module, imports: Dict[str, str]) -> int:
     fn = m.func(VALIDATOR)
-    params = [a.arg for a in fn.args.args]
-    ctx.need(len(params) == 1 and not fn.args.vararg and not fn.args.kwarg, f'{VALIDATOR}: expected a single parameter, found {params}')
+    params = [a.arg for a in fn.args.posonlyargs + fn.args.args]
+    ctx.need(len(params) >= 1 and not fn.args.vararg and not fn.args.kwarg, f'{VALIDATOR}: unexpected parameters {params}')
     p = params[0]
-    ctx.need(not any(isinstance(n, (ast.Try, ast.While, ast.For)) for n in pf.walk_shallow(fn)), f'{VALIDATOR}: loops/try in the validator body are not a recognised shape')
+    # further parameters are options: the values they can take are their defaults and what the call sites pass
+    opt_values: Dict[str, List[object]] = {}
+    extras = params[1:] + [a.arg for a in fn.args.kwonlyargs]
+    if extras:
+        dflt = dict(zip(params[len(params) - len(fn.args.defaults):], fn.args.defaults))
+        dflt.update({a.arg: d for a, d in zip(fn.args.kwonlyargs, fn.args.kw_defaults) if d is not None})
+        for x in extras:
+            ctx.need(x in dflt and isinstance(dflt[x], ast.Constant), f'{VALIDATOR}: option `{x}` has no constant default')
+            opt_values[x] = [dflt[x].value]  # type: ignore[union-attr]
+        for rel in pf.walk_py(['auth/auth']):
+            for n in ast.walk(pf.load(rel).tree):
+                if isinstance(n, ast.Call) and (pf.dotted(n.func) or '').split('.')[-1] == VALIDATOR:
+                    given = list(zip(params[1:], n.args[1:])) + [(k.arg, k.value) for k in n.keywords if k.arg in extras]
+                    ctx.need(not any(isinstance(a, ast.Starred) for a in n.args) and all(k.arg is not None for k in n.keywords), f'{VALIDATOR}: call with star arguments')
+                    for x, v in given:
+                        if isinstance(v, ast.Constant):
+                            if v.value not in opt_values[x]:
+                                opt_values[x].append(v.value)
+                        else:
+                            ctx.need(isinstance(opt_values[x][0], bool), f'{VALIDATOR}: option `{x}` is passed a computed non-boolean value')
+                            opt_values[x] = [False, True]
+    import itertools
+    bindings = [dict(zip(opt_values, combo)) for combo in itertools.product(*opt_values.values())] if opt_values else [{}]
+    ctx.need(not any(isinstance(n, (ast.Try, ast.While, ast.For, ast.With, ast.AsyncWith, ast.Match)) for n in pf.walk_shallow(fn)),
+             f'{VALIDATOR}: loops/try/with in the validator body are not a recognised shape')
+    ctx.need(not any(isinstance(n, ast.Name) and n.id == p and isinstance(n.ctx, ast.Store) for n in pf.walk_shallow(fn)), f'{VALIDATOR}: the parameter is rebound')
     cons = f'{F}::{VALIDATOR}'
     atoms = absdom.collect_test_atoms(fn.body)
+    expanded: Dict[int, ast.AST] = {id(a): pf.expand_locals(fn, a, 4) for a in atoms}
+    by_key: Dict[str, ast.AST] = {absdom.atom_key(a): expanded[id(a)] for a in atoms}
+
+    def netloc_subject(e: ast.AST) -> Optional[ast.expr]:
+        return _is_urlparse_netloc(fn, e, imports)
+
     member_atoms: Dict[str, bool] = {}  # key -> True if atom is `x in L`, False if `x not in L`
     free: List[str] = []
     services: Optional[List[str]] = None
     weak_seen = False
-    for a in atoms:
-        k = absdom.atom_key(a)
-        # anything that looks at the netloc / domains through prefix, suffix or substring is the recognised wrong shape
-        mentions_netloc = any(_is_urlparse_netloc(fn, n, imports) is not None for n in ast.walk(a) if isinstance(n, (ast.Name, ast.Attribute)))
+    for a0 in atoms:
+        k = absdom.atom_key(a0)
+        a = expanded[id(a0)]
+        mentions_netloc = any(netloc_subject(n) is not None for n in ast.walk(a) if isinstance(n, ast.Attribute))
         weak = [pf.nsrc(c.func) for c in ast.walk(a) if isinstance(c, ast.Call) and isinstance(c.func, ast.Attribute)
-                and c.func.attr in ('startswith', 'endswith', 'find', 'index', 'count', 'search', 'match')]
+                and c.func.attr in ('startswith', 'endswith', 'find', 'index', 'count', 'search', 'match', 'fullmatch')]
         if isinstance(a, ast.Compare) and len(a.ops) == 1 and isinstance(a.ops[0], (ast.In, ast.NotIn)):
-            subject = _is_urlparse_netloc(fn, a.left, imports)
+            subject = netloc_subject(a.left)
             doms = _domains_list(ctx, fn, a.comparators[0], imports)
             if subject is not None and doms is not None:
                 ctx.need(isinstance(subject, ast.Name), f'{VALIDATOR}: membership test parses `{pf.nsrc(subject)}`, not a plain variable')
                 if subject.id != p:  # type: ignore[union-attr]
-                    ctx.bad('R3', cons + '::subject', f'the membership test parses `{subject.id}`, not the parameter `{p}` being validated', m.path, a.lineno)  # type: ignore[union-attr]
+                    ctx.bad('R3', cons + '::subject', f'the membership test parses `{subject.id}`, not the parameter `{p}` being validated', m.path, a0.lineno)  # type: ignore[union-attr]
                 member_atoms[k] = isinstance(a.ops[0], ast.In)
                 services = doms
                 continue
-            # membership of something else in the netloc (substring), or of the netloc in a string
-            rsub = _is_urlparse_netloc(fn, a.comparators[0], imports)
+            rsub = netloc_subject(a.comparators[0])
             if rsub is not None:
                 ctx.bad('R3', cons + '::membership', f'`{k}` is a substring test on the netloc, not exact membership in the list of valid netlocs: '
-                        'https://auth.hail.is.evil.example/ passes', m.path, a.lineno)
+                        'https://auth.hail.is.evil.example/ passes', m.path, a0.lineno)
                 member_atoms[k] = isinstance(a.ops[0], ast.In)
+                weak_seen = True
                 continue
             if subject is not None:
                 raise AnalysisError(f'{VALIDATOR}: cannot resolve the collection `{pf.nsrc(a.comparators[0])}` the netloc is tested against')
-        mentions_domains = any(_domains_list(ctx, fn, n, imports) is not None for n in ast.walk(a) if isinstance(n, ast.Name))
+        mentions_domains = any(_domains_list(ctx, fn, n, imports) is not None for n in ast.walk(a) if isinstance(n, (ast.ListComp, ast.List, ast.Tuple, ast.Set, ast.SetComp, ast.GeneratorExp)))
         nested_sub = [c for c in ast.walk(a) if c is not a and isinstance(c, ast.Compare) and len(c.ops) == 1 and isinstance(c.ops[0], (ast.In, ast.NotIn))
-                      and ((isinstance(c.comparators[0], ast.Name) and c.comparators[0].id == p) or _is_urlparse_netloc(fn, c.comparators[0], imports) is not None)]
-        if (weak and (mentions_netloc or mentions_domains)) or (nested_sub and mentions_domains):
+                      and ((isinstance(c.comparators[0], ast.Name) and c.comparators[0].id == p) or netloc_subject(c.comparators[0]) is not None)]
+        if (weak and mentions_domains and (mentions_netloc or _mentions_param(a, p))) or (nested_sub and mentions_domains):
             how = weak[0] if weak else f'`{pf.nsrc(nested_sub[0])}`'
             ctx.bad('R3', cons + '::membership', f'`{short(k, 100)}` decides by {how} (prefix/suffix/substring), not exact membership of the netloc: '
-                    'e.g. https://evil.example/?auth.hail.is or https://auth.hail.is.evil.example/ passes', m.path, a.lineno)
+                    'e.g. https://evil.example/?auth.hail.is or https://auth.hail.is.evil.example/ passes', m.path, a0.lineno)
             weak_seen = True
-            free.append(k)
-            continue
-        if mentions_netloc:
-            raise AnalysisError(f'{VALIDATOR}: test `{short(k, 80)}` uses the netloc in an unrecognised way')
         free.append(k)
+    if services is not None:
+        extra = sorted(set(services) - SERVICES)
+        ctx.check(not extra, 'R3', cons + '::services',
+                  f'valid hosts include service(s) {extra} beyond the statement\'s batch/auth/ci/monitoring: a next URL on that host is accepted', m.path, fn.lineno,
+                  detail={'services': services})
+
+    # -- tests about the value vs. tests about something else (configuration flags ...): the latter are enumerated as independent booleans
+    about_value = [k for k in list(member_atoms) + free if _mentions_param(by_key[k], p)]
+    indep = [k for k in free if k not in about_value]
+    ctx.need(len(indep) <= 4 and len(free) <= 8, f'{VALIDATOR}: too many free predicates')
+
+    # -- (1) concrete counter-examples: the decision list evaluated by our own string evaluator on a corpus of hostile values
+    domains = [f'{s_}.hail.is' for s_ in ['batch', 'auth', 'ci', 'monitoring']]
+    tests = {id(a0): expanded[id(a0)] for a0 in atoms}
+    witness = None
+    n_eval = n_unknown = 0
+    # tests on the options alone have the value the binding gives them
+    fixed_by: List[Tuple[Dict[str, object], Dict[str, bool]]] = []
+    for b in bindings:
+        fx: Dict[str, bool] = {}
+        for k in indep:
+            if b and pf.names_in(by_key[k]) & set(b):
+                try:
+                    fx[k] = bool(StrEval(imports, b).ev(by_key[k]))
+                except (_Unknown, _Raises):
+                    pass
+        fixed_by.append((b, fx))
+    combos = [(b, dict(iv)) for b, fx in fixed_by for iv in absdom.valuations(indep) if all(iv[k] == v for k, v in fx.items())]
+    for b, iv in combos:
+        for w in _corpus(domains):
+            outcome, taken = _run_validator(fn, tests, imports, p, w, iv, b)
+            n_eval += 1
+            if outcome == 'unknown':
+                n_unknown += 1
+                continue
+            if outcome == 'accept':
+                host = browser_host(w)
+                if host not in (SAME_SITE, NOT_NAVIGABLE) and host not in domains:
+                    witness = (w, host, taken, dict(iv, **{f'option {k}': v for k, v in b.items()}))
+                    break
+        if witness:
+            break
+    ctx.unit('validator_witness_evaluations', n_eval)
+    if witness:
+        w, host, taken, iv = witness
+        ctx.bad('R3', cons + '::decision', f'{VALIDATOR}({w!r}) returns normally (tests taken: {"; ".join(taken) or "none"}'
+                + (f'; with {iv}' if iv else '') + f') and a browser following `Location: {w}` lands on {host!r}, which is not one of the allow-listed '
+                f'hosts: no path of the validator that accepts this value has established `urlparse({p}).netloc in <netlocs of batch/auth/ci/monitoring>`',
+                m.path, fn.lineno, extra={'witness': w, 'browser_host': host, 'tests': taken})
+        return n_eval
+
+    # -- (2) proof side: every accepting path has established exact membership, or admits only strings that cannot name a host
     if not member_atoms:
         if weak_seen:
             ctx.bad('R3', cons + '::decision', 'no exact-membership test of the netloc remains in the validator', m.path, fn.lineno)
-            return 0
-        # no membership test at all: recognised wrong shape only if the netloc is never computed
-        computes = any(_is_urlparse_netloc(fn, n, imports) is not None for n in ast.walk(fn) if isinstance(n, ast.Attribute))
-        ctx.need(not computes, f'{VALIDATOR}: the netloc is computed but no membership test was recognised')
-        ctx.bad('R3', cons + '::membership', f'{VALIDATOR} never tests the netloc of `{p}`: every URL is accepted', m.path, fn.lineno)
-        ctx.bad('R3', cons + '::decision', 'no exact-membership test of the netloc remains in the validator', m.path, fn.lineno)
-        return 0
-    ctx.need(len(free) <= 6, f'{VALIDATOR}: too many free predicates')
-    ctx.need(services is not None, f'{VALIDATOR}: service list not resolved')
-    extra = sorted(set(services or []) - SERVICES)
-    ctx.check(not extra, 'R3', cons + '::services',
-              f'valid hosts include service(s) {extra} beyond the statement\'s batch/auth/ci/monitoring: a next URL on that host is accepted', m.path, fn.lineno,
-              detail={'services': services})
+            return n_eval
+        computes = any(netloc_subject(n) is not None for n in ast.walk(fn) if isinstance(n, ast.Attribute))
+        if not computes and not about_value:
+            ctx.bad('R3', cons + '::membership', f'{VALIDATOR} never tests the netloc of `{p}`: every URL is accepted', m.path, fn.lineno)
+            ctx.bad('R3', cons + '::decision', 'no exact-membership test of the netloc remains in the validator', m.path, fn.lineno)
+            return n_eval
     rows = 0
-    wrong = []
-    for member in (False, True):
+    open_paths: Dict[str, Tuple[List[Tuple[ast.AST, bool]], Dict[str, bool], str]] = {}
+    mkeys = list(member_atoms)
+    feasible_indep = [iv for _b, iv in combos]
+    for mv in ([False, True] if mkeys else [False]):
         for fv in absdom.valuations(free):
+            if not any(all(fv[k] == iv[k] for k in indep) for iv in feasible_indep):
+                continue  # excluded by the values the options can take
+            consulted: List[Tuple[str, bool]] = []
+
             def val(atom: ast.AST) -> bool:
                 key = absdom.atom_key(atom)
                 if key in member_atoms:
-                    return member if member_atoms[key] else not member
-                return fv[key]
+                    r = mv if member_atoms[key] else not mv
+                else:
+                    r = fv[key]
+                consulted.append((key, r))
+                return r
             o = absdom.walk_block(fn.body, val)
             rows += 1
-            if not member and o.kind != 'raise':
-                wrong.append((fv, o.kind))
-    if wrong:
-        fv, kind = wrong[0]
-        ctx.bad('R3', cons + '::decision', f'with the netloc NOT among the valid netlocs (other tests {fv}) the validator ends by `{kind}` instead of raising: '
-                'next=https://evil.example/ is accepted', m.path, fn.lineno, extra=[str(w) for w in wrong[:8]])
-    else:
-        ctx.ok('R3', cons + '::decision', {'rows': rows, 'membership_atoms': list(member_atoms), 'free_atoms': free, 'services': services})
+            if o.kind == 'raise':
+                continue
+            if any(kk in member_atoms and (rr if member_atoms[kk] else not rr) for kk, rr in consulted):
+                continue  # accepted after the netloc was found in the allow-list
+            sig = '; '.join(('' if rr else 'not ') + short(kk, 60) for kk, rr in consulted)
+            open_paths.setdefault(sig, ([(by_key[kk], rr) for kk, rr in consulted if kk in about_value], {kk: rr for kk, rr in consulted if kk in indep}, o.kind))
+    if not open_paths:
+        ctx.need(member_atoms, f'{VALIDATOR}: no accepting path and no membership test (unrecognised shape)')
+        ctx.ok('R3', cons + '::decision', {'rows': rows, 'membership_atoms': mkeys, 'free_atoms': free, 'services': services, 'corpus_evaluations': n_eval,
+                                            'corpus_undetermined': n_unknown})
+        return rows
+    proven = []
+    for sig, (conds, iv, kind) in open_paths.items():
+        if not conds:
+            ctx.bad('R3', cons + '::decision', f'the validator ends by `{kind}` on the path [{sig or "no test"}] without having tested the netloc of `{p}` against the valid '
+                    'netlocs: next=https://evil.example/ is accepted', m.path, fn.lineno)
+            return rows
+        leaving = _leaving_classes(conds, p)
+        if leaving:
+            shown = ', '.join(repr(''.join('' if c == _END else ('x' if c == _OTHER else c) for c in cl)) + '…' for cl in leaving[:6])
+            raise AnalysisError(f'{VALIDATOR}: the path [{short(sig, 160)}] accepts without an allow-list test; strings beginning {shown} are not excluded by the tests '
+                                'the analysis interprets and no counter-example of the corpus is accepted - cannot decide')
+        proven.append(sig)
+    ctx.ok('R3', cons + '::decision', {'rows': rows, 'membership_atoms': mkeys, 'free_atoms': free, 'services': services,
+                                        'paths_accepting_site_relative_values_only': proven})
     return rows
 
 
@@ -466,27 +1042,91 @@ def _check_external_url(ctx: Ctx) -> None:
 
 
 def run(ctx: Ctx) -> None:
-    ctx.explanation = ('Taint/def-use over every function of auth.py with CFG must-pass-through (exception edges out of the validation do not count as '
-                       'validated); truth table of validate_next_page_url over its tests; f-string shape of DeployConfig.external_url.')
-    ctx.rule('R1', 'every redirect whose location is client-controlled (request / session) is preceded on every path by validate_next_page_url on that value', 2)
+    ctx.explanation = ('Taint/def-use over every function of auth/auth/*.py with CFG must-pass-through (exception edges out of the validation do not count as '
+                       'validated); decision list of validate_next_page_url: truth table + hostile-value corpus read as a browser reads it; f-string shape of '
+                       'DeployConfig.external_url.')
+    ctx.rule('R1', 'every redirect whose location is client-controlled (request / session) is preceded on every path by validate_next_page_url on that value', 3)
     ctx.rule('R2', "every session['next'] store of a client-controlled value is preceded on every path by validate_next_page_url on that value", 3)
-    ctx.rule('R3', 'validate_next_page_url raises unless urlparse(next).netloc is an exact member of the netlocs of batch/auth/ci/monitoring', 2)
+    ctx.rule('R3', 'validate_next_page_url accepts only after urlparse(next).netloc was found to be an exact member of the netlocs of batch/auth/ci/monitoring (or the value is '
+             'provably site-relative); no hostile value of the corpus is accepted', 2)
     ctx.rule('R4', 'DeployConfig.external_url always returns scheme://non-empty-authority…, so the empty netloc is never valid', 3)
-    ctx.assume('urllib.parse.urlparse(u).netloc is the authority a browser navigates to (parser differentials are not decided)')
+    ctx.assume('a browser reads a Location value as WHATWG URL parsing against an https base does (model: rules/c29.browser_host); urlparse behaves as in the checking interpreter')
+    for probe, want in (('/\\evil.example/', 'evil.example'), ('/batches', SAME_SITE), ('//evil.example', 'evil.example'), ('/\t/evil.example', 'evil.example'),
+                        ('https://a.example\\@b.example/', 'a.example'), ('https://a.example@b.example/', 'b.example'), ('javascript:alert(1)', NOT_NAVIGABLE),
+                        (' https://evil.example', 'evil.example'), ('https:/evil.example', 'evil.example'), ('/x//y', SAME_SITE)):
+        ctx.need(browser_host(probe) == want, f'internal: browser model gives {browser_host(probe)!r} for {probe!r}, expected {want!r}')
     ctx.assume('data read from the database or from the OAuth flow client is not client-controlled for the purpose of this property')
     m = pf.load(F)
-    ctx.unit('files', 2)
     imports = m.imports()
     ctx.need(m.has_func(VALIDATOR), f'anchor vanished: {F}::{VALIDATOR}')
+    # positive control for the sink shapes that do not occur on today's tree
+    ctl = ast.parse("resp = web.Response(status=302, headers={'Location': u})\nresp.headers['location'] = u\nresp.headers.add('Location', u)\n")
+    ctx.need(sum(len(_location_values(n)) for n in ast.walk(ctl)) == 3, 'internal: Location-header sink recognition failed its positive control')
+    ctx.ok('R1', 'control::Location header sinks', 'dict literal / subscript store / headers.add are recognised', nontrivial=False)
+    rels = [r for r in pf.walk_py(['auth/auth'])]
+    ctx.need(F in rels, f'{F} not found under auth/auth')
+    ctx.unit('files', len(rels) + 1)
     n_red = n_clean = 0
-    for qual, fn in m.functions():
-        a, b = _scan_function(ctx, m, qual, fn, imports)
-        n_red += a
-        n_clean += b
-        ctx.unit('functions')
+    errors: List[str] = []
+    for rel in rels:
+        mm = pf.load(rel)
+        imps = mm.imports()
+        if rel != F:
+            # a second module may redirect too; it can only validate through the validator of auth.py
+            uses = any(isinstance(n, ast.Attribute) and n.attr in REDIRECTS for n in ast.walk(mm.tree)) or any(
+                isinstance(n, ast.Constant) and isinstance(n.value, str) and n.value.lower() == 'location' for n in ast.walk(mm.tree))
+            if not uses:
+                ctx.unit('functions', len(mm.functions()))
+                continue
+        derived: Dict[str, List[Tuple[int, str]]] = {}
+        for _round in range(4):
+            found: Dict[str, List[Tuple[int, str]]] = {}
+            a_sum = b_sum = 0
+            before = (len(ctx.instances), len(ctx.findings))
+            try:
+                for qual, fn in mm.functions():
+                    a, b = _scan_function(ctx, mm, qual, fn, imps, derived, found)
+                    a_sum += a
+                    b_sum += b
+            except AnalysisError as e:
+                errors.append(str(e))
+                break
+            new = {k: sorted(set(v)) for k, v in found.items()}
+            if all(derived.get(k) == v for k, v in new.items()):
+                n_red += a_sum
+                n_clean += b_sum
+                break
+            # helpers that pass a parameter on to a redirect were discovered: rescan with their calls as sinks
+            del ctx.instances[before[0]:]
+            del ctx.findings[before[1]:]
+            derived.update(new)
+            for h in new:
+                # the helper must only be used by plain calls we can see
+                for n in ast.walk(mm.tree):
+                    if isinstance(n, ast.Name) and n.id == h and isinstance(n.ctx, ast.Load):
+                        par = mm.parents().get(n)
+                        if not (isinstance(par, ast.Call) and par.func is n):
+                            errors.append(f'{rel}: helper `{h}` passes its parameter to a redirect and is used other than by a direct call')
+        else:
+            errors.append(f'{rel}: redirect helpers nest too deeply')
+        ctx.unit('functions', len(mm.functions()))
+        if derived:
+            ctx.extra_cov.setdefault('redirect_helpers', {}).update({f'{rel}::{k}': [p for _, p in v] for k, v in derived.items()})
     ctx.unit('redirect_sites', n_red)
     ctx.unit('redirects_with_constant_or_server_side_location', n_clean)
     ctx.extra_cov['redirect_sites'] = {'total': n_red, 'not_client_controlled': n_clean}
+    try:
+        rows = _check_validator(ctx, m, imports)
+        ctx.unit('validator_table_rows', rows)
+    except AnalysisError as e:
+        errors.append(str(e))
+    try:
+        _check_external_url(ctx)
+    except AnalysisError as e:
+        errors.append(str(e))
+    if errors:
+        raise AnalysisError('; '.join(errors[:3]))
+    return
     rows = _check_validator(ctx, m, imports)
     ctx.unit('validator_table_rows', rows)
     _check_external_url(ctx)
